@@ -381,7 +381,11 @@ def docs_mechanism(chk, dprog, cfg):
         okm = b.dominates(t_def, idents["docs"]) and b.dominates(t_alw, idents["docs_always"]) and never_no_iter
         detail = "default -> docs: %s; always -> docs_always: %s; never returns None before the attribute scan: %s" % (
             b.dominates(t_def, idents["docs"]), b.dominates(t_alw, idents["docs_always"]), never_no_iter)
-    chk.expect(ok and okm, "R9.4", "generate_docs:mode-switch", b.where(), detail, cfg)
+    if not (sw and "docs" in idents and "docs_always" in idents):
+        chk.abstain("R9.4", "generate_docs:mode-switch", b.where(), "generate_docs does not switch on capture_docs() with the two setter names spelled as quoted identifiers (%s)" % detail, cfg,
+                    decided_by="corpus declarations DocsAlways, DocsDefault, DocsNever, DocParagraphs (R9.T: which setter is emitted per capture mode, and none for `never`)")
+    else:
+        chk.expect(ok and okm, "R9.4", "generate_docs:mode-switch", b.where(), detail, cfg)
     # strip-once
     # everything generate_docs does per attribute: its closures and the private helpers it (or they) call
     cl = list(cd.closure_tree(dprog, b.path))
